@@ -136,4 +136,78 @@ theorem step_index (s : Bytes) (fol : Bytes) (hs : isIdentName s = true) (h : st
 
 def numStop (fol : Bytes) : Bool := !(isNumber (peek fol) || peek fol == 46 || isIdent (peek fol) false)
 
+theorem scanNumber_nil (st : NumState) (fol : Bytes) (h : scanNumber st [] = (0, true)) (hf : numStop fol = true) :
+    scanNumber st fol = (0, true) := by
+  cases fol with
+  | nil => exact h
+  | cons c fol =>
+    simp only [numStop, peek_cons, Bool.not_eq_true', Bool.or_eq_false_iff] at hf
+    obtain ⟨⟨h1, h2⟩, h3⟩ := hf
+    have he : (c == 101 || c == 69) = false := by
+      cases hc : (c == 101 || c == 69)
+      · rfl
+      · simp only [Bool.or_eq_true, beq_iff_eq] at hc
+        rcases hc with rfl | rfl <;> exact absurd h3 (by decide)
+    simp only [Bool.or_eq_false_iff] at he
+    cases st <;> simp [scanNumber] at h ⊢ <;> simp_all
+
+/-- a number scanned in full is scanned the same way when a byte that cannot continue it follows -/
+theorem scanNumber_app (st : NumState) (r : Bytes) : ∀ (fol : Bytes), scanNumber st r = (r.length, true) →
+    numStop fol = true → scanNumber st (r ++ fol) = (r.length, true) := by
+  fun_induction scanNumber st r
+  case case1 => intro fol _ hf; exact scanNumber_nil _ fol rfl hf
+  case case2 => intro fol _ hf; exact scanNumber_nil _ fol rfl hf
+  case case3 => intro fol h; simp at h
+  case case4 => intro fol h; simp at h
+  case case5 => intro fol _ hf; exact scanNumber_nil _ fol rfl hf
+  all_goals (intro fol h hf)
+  all_goals (try (simp at h; done))
+  all_goals (
+    simp only [List.length_cons, Prod.mk.injEq, Nat.add_right_cancel_iff] at h
+    obtain ⟨h1, h2⟩ := h
+    subst h1 h2
+    rename_i ih hx
+    have := ih fol hx hf
+    rw [List.cons_append, scanNumber]
+    simp_all)
+
+theorem number_props (c : UInt8) (h : isNumber c = true) :
+    isWhite c = false ∧ (c == 35) = false ∧ isIdent c false = false ∧ (c == 46) = false := by
+  simp only [isNumber, Bool.and_eq_true, decide_eq_true_eq] at h
+  have h57 : ∀ d : UInt8, 57 < d → ¬ d ≤ c := fun d hd => UInt8.not_le.mpr (Nat.lt_of_le_of_lt h.2 hd)
+  have h48 : ∀ d : UInt8, d < 48 → c ≠ d := fun d hd e => by
+    subst e; exact absurd h.1 (UInt8.not_le.mpr hd)
+  refine ⟨?_, ?_, ?_, ?_⟩
+  · simp only [isWhite, Bool.or_eq_false_iff, beq_eq_false_iff_ne]
+    exact ⟨⟨⟨h48 9 (by decide), h48 10 (by decide)⟩, h48 13 (by decide)⟩, h48 32 (by decide)⟩
+  · simp only [beq_eq_false_iff_ne]; exact h48 35 (by decide)
+  · simp only [isIdent, Bool.false_and, Bool.or_false, Bool.or_eq_false_iff, Bool.and_eq_false_iff,
+      decide_eq_false_iff_not, beq_eq_false_iff_ne]
+    refine ⟨⟨Or.inl (h57 97 (by decide)), Or.inl (h57 65 (by decide))⟩, ?_⟩
+    intro e; subst e; exact absurd h.2 (by decide)
+  · simp only [beq_eq_false_iff_ne]; exact h48 46 (by decide)
+
+theorem step_number (s : Bytes) (fol : Bytes) (hs : okNumber s = true) (h : stops (.number s) fol = true) :
+    LexStep false (s ++ fol) (.number s) fol false := by
+  have hf : numStop fol = true := h
+  unfold okNumber at hs
+  split at hs
+  · cases hs
+  · next b r =>
+    simp only [Bool.or_eq_true, Bool.and_eq_true, beq_iff_eq] at hs
+    rw [List.cons_append]
+    rcases hs with ⟨hb, hsc⟩ | ⟨⟨hb, hp⟩, hsc⟩
+    · obtain ⟨hw, hh, hi, _⟩ := number_props b hb
+      refine step_scan b (r ++ fol) fol _ r.length (some (b :: r)) tokNumber { token := b :: r }
+        hw hh ?_ (by decide) rfl (by simp)
+      simp [scanTok, hi, hb, scanNumber_app .lead r fol hsc hf]
+    · subst hb
+      have hne : r ≠ [] := by intro e; subst e; simp [peek, isNumber] at hp
+      have hpk : peek (r ++ fol) = peek r := by cases r with | nil => exact absurd rfl hne | cons _ _ => rfl
+      obtain ⟨_, _, hi, h46⟩ := number_props (peek r) hp
+      refine step_scan 46 (r ++ fol) fol _ r.length (some (46 :: r)) tokNumber { token := 46 :: r }
+        (by decide) (by decide) ?_ (by decide) rfl (by simp)
+      simp [scanTok, hpk, hi, hp, h46, scanNumber_app .float r fol hsc hf,
+        show isIdent 46 false = false by decide, show isNumber 46 = false by decide]
+
 end Gojq.RefTerm
